@@ -13,5 +13,5 @@ rep={sys.argv[2]:sys.argv[1]}
 if os.path.exists(sys.argv[4]): rep[sys.argv[3]+"/lib/controller/localdb/login_pam.go"]=sys.argv[4]
 print(json.dumps({"Replace":rep}))
 PY
-X
-cd $repo && go test -overlay $tmp/ov.json -vet=off -count=1 -timeout 120s -run "^${name}\$" ./$pkgdir
+names=$(grep -o 'func Test[A-Za-z0-9_]*' $f | awk '{print $2}' | paste -sd'|')
+cd $repo && go test -overlay $tmp/ov.json -vet=off -count=1 -timeout 120s -run "^(${names})\$" ./$pkgdir
